@@ -381,7 +381,13 @@ class Session:
         return out
 
     def _res(self, rl):
-        return [self.resnames[i % len(self.resnames)] for i in rl]
+        names = [self.resnames[i % len(self.resnames)] for i in rl]
+        form = sum(rl) % 3
+        if form == 1:  # particle objects instead of names
+            return [p for p in self.dg.resonances if str(p) in names]
+        if form == 2:  # chain indices (an int selects that chain)
+            return sorted(set(i % self.nchains for i in rl))
+        return names
 
     def _chains(self, cl):
         return sorted(set(i % self.nchains for i in cl))
@@ -397,6 +403,8 @@ class Session:
         res = None
         if op.get("res_sub"):
             res = self.resnames[: max(1, len(self.resnames) - 1)]
+            if op.get("batch") == 5 and k in ("cal_fitfractions", "cal_fitfractions_no_grad"):
+                res = list(range(max(1, self.nchains - 1)))  # chain indices are accepted as well
         if k == "eval":
             return amp(D)
         if k == "partial_weight":
@@ -429,7 +437,14 @@ class Session:
                 gen.close()
             return out
         if k == "config_cal_fitfractions":
-            return self.config.cal_fitfractions(params=self._params(op.get("p", [])), mcdata=D, batch=op.get("batch") or 3, res=res)
+            prm = self._params(op.get("p", []))
+            if len(prm) == 2:  # a fit-result like object carrying .params is accepted too
+
+                class _R:
+                    params = prm
+
+                prm = _R()
+            return self.config.cal_fitfractions(params=prm, mcdata=D, batch=op.get("batch") or 3, res=res)
         raise ValueError(k)
 
     def block_cm(self, op):
